@@ -380,6 +380,13 @@ def run_case(case, rec):
                         except Exception:
                             pass
                         break
+            elif case['ch'] % 5 == 2:
+                # an attribute assigned None after construction (the caller's
+                # "no table"): encoded as the empty table, and left None
+                for a_, t_, _d in spec.args:
+                    if t_ == 'table':
+                        setattr(obj, a_, None)
+                        rec.count('objects_with_table_set_to_None')
             r = _encode_twice(lambda o: frame.marshal(o, case['ch']),
                               lambda: obj, rec, case, 'method')
             if r is None:
@@ -394,6 +401,10 @@ def run_case(case, rec):
             if c2.ok:
                 if deleted is not None:
                     delattr(c2.value, deleted)
+                elif case['ch'] % 5 == 2:
+                    for a_, t_, _d in spec.args:
+                        if t_ == 'table':
+                            setattr(c2.value, a_, None)
                 m2 = common.lib_marshal(c2.value, case['ch'])
                 if not m2.ok or m2.value != r:
                     rec.violation('order-dependent:method',
